@@ -1,6 +1,6 @@
 (* dispatch : list Z -> list Z  -- the single entry point of the extracted model *)
 From Coq Require Import ZArith List Bool.
-From GV.Model Require Export Wire Wire2.
+From GV.Model Require Export Wire Wire2 Repr.
 Import ListNotations.
 Open Scope Z_scope.
 
@@ -68,6 +68,17 @@ Definition op_fstep (l : list Z) : list Z :=
 Definition op_fobs (l : list Z) : list Z :=
   run (do e <- pgridworld; do debug <- pbool; do s <- pstate; do tape <- ptape; pret (e, debug, s, tape))
       (fun '(e, debug, s, tape) => eoutcome estate (interp (functional_observation e debug s) tape)) l.
+Definition prepr_kind : parser repr_kind :=
+  do x <- pZ; match x with 0 => pret RDefault | 1 => pret RNoOverlap | 2 => pret RCompact | _ => pfail end.
+Definition op_repr (l : list Z) : list Z :=
+  run (do k <- prepr_kind; do ts <- plist pZ; do cs <- plist pZ; do is_state <- pbool; do s <- pstate; pret (k, ts, cs, is_state, s))
+      (fun '(k, ts, cs, is_state, s) =>
+         if is_state then
+           eres (fun r => concat (concat (sr_grid r)) ++ concat (sr_agent_id r) ++
+                          (let '(yy, xx, oh) := sr_agent r in [fst yy; snd yy; fst xx; snd xx] ++ oh) ++ sr_item r ++ obj_upper k ts cs)
+                (convert_state k ts cs s)
+         else let r := convert_obs k ts cs s in
+              0 :: concat (concat (or_grid r)) ++ concat (or_agent_id r) ++ or_item r ++ obj_upper k ts cs) l.
 Definition op_contains (l : list Z) : list Z :=
   match l with
   | 0 :: r => run (do ss <- psspace; do s <- pstate; pret (ss, s)) (fun '(ss, s) => ebool (ss_contains ss s)) r
@@ -91,5 +102,6 @@ Definition dispatch (l : list Z) : list Z :=
   | 11 :: r => op_contains r
   | 12 :: r => op_fstep r
   | 13 :: r => op_fobs r
+  | 14 :: r => op_repr r
   | _ => undecodable
   end.
